@@ -432,6 +432,8 @@ func discharge(o *Obligation, p *prepared, opt solveOpts) {
 		for _, s := range solvers {
 			if strings.HasPrefix(res.solver, s.Name) {
 				o.Model = getModel(s, res.model.Text, res.model.Vars, opt.timeoutMs, res.model.Quant)
+				o.ModelScript = res.model.Text
+				o.ModelQuant = res.model.Quant
 			}
 		}
 	}
